@@ -71,6 +71,7 @@ Example C12_bytes_example :
   contains_w (enc (VArr [VNum (NInt 7); VStr [97]])) (enc (VNum (NFloat 4619567317775286272))) = Ok true /\
   contains_w (enc (VArr [VArr [VNum (NInt 7)]])) (enc (VNum (NInt 7))) = Ok false.
 Proof. vm_compute. repeat split; reflexivity. Qed.
+Print Assumptions C12_bytes_example.
 
 (* ---- the specification itself, written from the property text (ContainSpec.v): an inductive relation with one rule
    per sentence -- equal scalars; object/object when every member of b is contained in the member of a under the same
@@ -112,3 +113,4 @@ Proof.
   - right. eexists. split; [reflexivity|]. split; [reflexivity|]. eexists. split; [left; reflexivity|]. repeat split; vm_compute; reflexivity.
   - intros H. apply C12_contains_is_the_declarative_relation in H; [|reflexivity|reflexivity]. vm_compute in H. discriminate H.
 Qed.
+Print Assumptions C12_declarative_example.
